@@ -93,7 +93,6 @@ def return_nodes(fn):
 
 def run(ctx: Context):
     idx = ctx.idx
-    cg = get_callgraph(idx)
 
     # -- 1. decrypt only when writeable -------------------------------------
     with ctx.rule("C18.1", "R3/R7", "_unpack_contents: _decrypt_rwcapdata only under 'not self.is_readonly()'; the rw "
@@ -314,10 +313,12 @@ def run(ctx: Context):
             r.require(not leak and not calls, u, u.loc(n.ast),
                       "UnknownNode.rw_uri is fed by %s (only the rw argument may fill the write slot)" % (
                           ", ".join(leak + [call_name(c) for c in calls])))
-        other = [(f2, nd) for (f2, nd) in cg.attr_stores("rw_uri")
-                 if f2.module.name == "allmydata.unknown" and f2.qual != u.qual]
-        for (f2, nd) in other:
-            r.violation(f2, f2.loc(nd), "%s re-binds UnknownNode.rw_uri outside __init__" % short(f2))
+        for f2 in idx.cls("unknown:UnknownNode").methods.values():
+            if f2.qual == u.qual:
+                continue
+            for nd in func_own_nodes(f2):
+                if isinstance(nd, ast.Attribute) and nd.attr == "rw_uri" and isinstance(nd.ctx, (ast.Store, ast.Del)):
+                    r.violation(f2, f2.loc(nd), "%s re-binds UnknownNode.rw_uri outside __init__" % short(f2))
 
     # -- 5. which cap a child is built from -----------------------------------
     with ctx.rule("C18.5", "R1/R7", "create_from_cap builds from 'writecap or readcap' and caches by that cap; dirnode "
@@ -396,6 +397,14 @@ def run(ctx: Context):
             a0, a1 = arg(c, 0, "writecap"), arg(c, 1, "readcap")
             r.require(attr_path(a0) == p2[0] and attr_path(a1) == p2[1], f2, f2.loc(c),
                       "create_from_cap is given (%s, %s) instead of (%s, %s)" % (src(f2, a0), src(f2, a1), p2[0], p2[1]))
+        # inside dirnode.py children are built only by that factory
+        dm = idx.module("allmydata.dirnode")
+        for g in idx.funcs.values():
+            if g.module is not dm or g.qual == f2.qual or g.qual.startswith(f2.qual + "."):
+                continue
+            for c in calls_in_func(g, "create_from_cap"):
+                r.violation(g, g.loc(c), "%s builds a node with create_from_cap outside _create_and_validate_node "
+                            "(bypasses the (rw, ro) discipline and raise_error)" % short(g))
         # the unpacker hands (rw, ro) in that order
         un = idx.func(DN + "._unpack_contents")
         for c in calls_in_func(un, "_create_and_validate_node"):
@@ -472,9 +481,12 @@ def run(ctx: Context):
                 r.violation(fn, fn.loc(), "init_from_cap can return without (re)setting _writekey", w)
         allowed = {"allmydata." + MF + ".init_from_cap", "allmydata." + MF + ".create_with_keys",
                    "allmydata." + MF + ".__init__"}
-        for (f2, nd) in cg.attr_stores("_writekey"):
-            if f2.cls is not None and f2.cls.name == "MutableFileNode" and f2.qual not in allowed:
-                r.violation(f2, f2.loc(nd), "%s re-binds MutableFileNode._writekey" % short(f2))
+        for f2 in idx.cls(MF).methods.values():
+            if f2.qual in allowed:
+                continue
+            for nd in func_own_nodes(f2, into_lambda=True):
+                if isinstance(nd, ast.Attribute) and nd.attr == "_writekey" and isinstance(nd.ctx, (ast.Store, ast.Del)):
+                    r.violation(f2, f2.loc(nd), "%s re-binds MutableFileNode._writekey" % short(f2))
         g = idx.func(MF + ".get_writekey")
         r.site(g, None)
         for n in return_nodes(g):
